@@ -23,10 +23,6 @@ from mc import core
 
 PY = "/venv/bin/python"
 
-# names ioflo itself treats as optional third-party packages (guarded `try: import` or
-# function-local imports in the pinned tree; install_requires is empty)
-OPTIONAL = ("simplejson", "win32file", "netifaces", "serial")
-
 # The program run inside the isolated interpreter.  It must not import anything that is not
 # already loaded by interpreter start-up (sys, os) except the C-only zlib for the digest.
 DRIVER = r'''
@@ -238,10 +234,6 @@ class Explorer:
         hist = " > ".join(list(path) + [cand])
         if res[0] == "fail":
             _, etype, msg, where, missing = res
-            top = (missing or "").split(".")[0]
-            if etype == "ModuleNotFoundError" and top in OPTIONAL:
-                p.outcome("optional third-party package missing: " + top)
-                return False, failed_before | {cand}
             p.outcome("import fails: %s in %s" % (etype, where or "?"))
             p.violation("import-fails|%s|%s|%s" % (etype, where, norm_msg(msg)), hist,
                         "`import %s`%s raises %s: %s (innermost ioflo frame %s)"
@@ -367,7 +359,8 @@ def run():
         "namespace = public (no leading underscore) module attributes described by kind and defining module, excluding a package's own "
         "submodule attributes, which Python binds as a side effect of importing the submodule",
         "test packages (ioflo.**.test) are not library API and are excluded",
-        "a ModuleNotFoundError for one of %s would be counted as a missing optional package, not a violation (none occurs)" % (OPTIONAL,),
+        "strict reading: any exception from an import statement is a violation; ioflo declares no required third-party package "
+        "(install_requires=[]) and guards or defers every optional one (simplejson, win32file, netifaces, pyserial), so no allowance is needed",
     ]
     return ck.finish(
         rule="all %d non-test modules imported from every import state reachable in < %d imports; non-trivial = transition that "
